@@ -103,13 +103,15 @@ def interpLeftInds (x0s x : List Rat) : Except ErrKind (List Int) :=
       if m < xfirst then .error .AssertionError
       else .ok (x0s.map (fun q => (searchsortedRight x q : Int) - 1))
 
-/-- array form `interp_left(x0, x, y)`; `y = none` is `y = np.arange(len(x))` (the indices, as rationals) -/
+/-- `y = np.arange(len(x))` for `y is None`, else `np.array(y)` -/
+def interpLeftY (x : List Rat) : Option (List Rat) → List Rat
+  | none => (List.range x.length).map (fun (i : Nat) => (i : Rat))
+  | some y => y
+
+/-- array form `interp_left(x0, x, y)`; `y = none` returns the indices (as rationals) -/
 def interpLeft (x0s x : List Rat) (y : Option (List Rat)) : Except ErrKind (List Rat) := do
-  let yv : List Rat := match y with
-    | none => (List.range x.length).map (fun (i : Nat) => (i : Rat))
-    | some y => y
   let inds ← interpLeftInds x0s x
-  inds.mapM (pyGet yv)
+  inds.mapM (pyGet (interpLeftY x y))
 
 /-- scalar form (`x0` without `__len__`): `y[inds][0]` -/
 def interpLeftScalar (x0 : Rat) (x : List Rat) (y : Option (List Rat)) : Except ErrKind Rat := do
@@ -208,17 +210,20 @@ def stepErr (values : List Rat) (pow : Nat) (dir : Dir) : Except ErrKind (List R
 
 /-! ## `calc_step_fn_steps_vals(values, ind=None)` -/
 
-/-- `eqsig.fns.average.calc_step_fn_steps_vals`: `(np.mean(values[:ind]), np.mean(values[ind+1:]))`,
-default `ind = np.argmin(calc_step_fn_vals_error(values))` (first minimum of the `pow = 1` error).
-A component is `none` where NumPy returns `nan` (mean of an empty slice). -/
-def stepLevels (values : List Rat) (ind : Option Int) : Except ErrKind (Option Rat × Option Rat) := do
-  let ind : Int ← match ind with
-    | some i => pure i
-    | none => do
-      let err ← stepErr values 1 .none
-      pure ((argmin err : Nat) : Int)
-  let pre := mean? (pySliceTo values ind)
-  let post := mean? (pySliceFrom values (ind + 1))
-  pure (pre, post)
+/-- `pre = np.mean(values[:ind]); post = np.mean(values[ind + 1:])` for a given (Python) integer `ind`.
+A component is `none` where NumPy returns `nan` (mean of an empty slice; RuntimeWarning, no raise). -/
+def stepLevelsAt (values : List Rat) (ind : Int) : Option Rat × Option Rat :=
+  (mean? (pySliceTo values ind), mean? (pySliceFrom values (ind + 1)))
+
+/-- `eqsig.fns.average.calc_step_fn_steps_vals(values, ind=None)`:
+default `ind = np.argmin(calc_step_fn_vals_error(values))` (first minimum of the `pow = 1`, `dir = None` error);
+`IndexError` for empty `values` with the default `ind` (raised inside `calc_step_fn_vals_error`). -/
+def stepLevels (values : List Rat) (ind : Option Int) : Except ErrKind (Option Rat × Option Rat) :=
+  match ind with
+  | some i => .ok (stepLevelsAt values i)
+  | none =>
+    match stepErr values 1 .none with
+    | .error e => .error e
+    | .ok err => .ok (stepLevelsAt values ((argmin err : Nat) : Int))
 
 end EqsigVerif.Model.Fns
